@@ -113,6 +113,11 @@ def build_component(comp, workdir):
         base = json.load(open(os.path.join(ROOT, 'contracts', 'signatures.json'))).get(comp.name + '#functions')
     except Exception:
         base = None
+    try:
+        base_st = json.load(open(os.path.join(ROOT, 'contracts', 'signatures.json'))).get(comp.name + '#statics')
+    except Exception:
+        base_st = None
+    meta['new_statics'] = sorted(x for x in meta.get('storage', {}) if base_st is not None and x not in base_st)
     if base is not None:
         bodies = {m.group(1): m.group(2) for m in re.finditer(r'^/\*@FUNC (\w+)\*/\n[^\n]*\n(.*?)^\}\n', raw_text, re.M | re.S)}
         for f in bodies:
@@ -419,6 +424,9 @@ def main():
                 # the bounded native stand-ins do not depend on the extraction: still run them
                 metas[c.name] = {'missing_contracts': [], 'sigs': {}, 'tagmap': {}, 'cfile': '', 'static_facts': []}
                 gs = [g for g in gs if g.native]
+            if metas[c.name].get('new_statics'):
+                infra.append('%s: new object(s) with static or thread storage duration that no contract knows (hidden state shared between calls, objects or threads?): %s' % (
+                    c.name, ', '.join(metas[c.name]['new_statics'])))
             if metas[c.name].get('unchecked_new_functions'):
                 infra.append('%s: new function(s) without a contract and without a caller in the checked code, so nothing decides what they do to %s: %s' % (
                     c.name, prop, ', '.join(metas[c.name]['unchecked_new_functions'])))
